@@ -428,6 +428,49 @@ def real_cases(draw, tier):
             "pyfloat": draw(st.booleans())}
 
 
+@st.composite
+def long_real_cases(draw, tier):
+    """One of m / k long (crossing the blocking sizes), the other dimensions <= 2."""
+    which = draw(st.sampled_from(["m", "k"]))
+    Lg = draw(gen.long_dim(cap=200 if tier == "quick" else 300))
+    m, k, n = (Lg, draw(st.integers(1, 2)), 1) if which == "m" else (draw(st.integers(1, 2)), Lg, draw(st.integers(1, 2)))
+    A, pa = draw(gen.long_qarray(m, k))
+    B, pb = draw(gen.long_qarray(k, n))
+    A2, _ = draw(gen.long_qarray(m, k))
+    return {"A": A, "B": B, "A2": A2, "a": draw(gen.reals()), "b": draw(gen.reals()), "pa": pa, "pb": pb,
+            "view": draw(st.booleans()), "pyfloat": False}
+
+
+@st.composite
+def long_component_cases(draw, tier):
+    m, n = draw(gen.long_dim(cap=300)), draw(st.integers(1, 3))
+    if draw(st.booleans()):
+        m, n = n, m
+    A, pa = draw(gen.long_qarray(m, n))
+    return {"A": A, "pa": pa}
+
+
+@st.composite
+def long_adjoint_cases(draw, tier):
+    n = draw(gen.long_dim(cap=129 if tier == "quick" else 257))
+    A, pa = draw(gen.long_qarray(n, n))
+    return {"A": A, "pa": pa}
+
+
+def check_adjoint_long(case):
+    """Layout, injectivity and the conjugate-transpose law for a long square matrix (the product law needs an n^3
+    exact oracle and stays with the small sizes)."""
+    out = Out()
+    A = case["A"]
+    out.label("patA=" + case["pa"], f"n={A.shape[0]}")
+    M = check_adjoint_layout(out, A)
+    if M is not None:
+        check_norm(out, "quaternion_to_complex_adjoint:||E(A)||_F = sqrt(2)||A||_F", M, A, 2)
+    out.nontrivial = imag_axes(A) >= 2
+    out.sample = {"n": int(A.shape[0]), "pattern": case["pa"]}
+    return out
+
+
 def check_real(case):
     out = Out()
     A, B, A2, a, b = case["A"], case["B"], case["A2"], float(case["a"]), float(case["b"])
@@ -651,6 +694,12 @@ PROPERTY = Property(
         Clause("real_embeddings", check_real, strategy=real_cases, budget={"quick": 2400, "thorough": 20000}),
         Clause("complex_adjoint", check_adjoint, strategy=adjoint_cases, budget={"quick": 1600, "thorough": 16000}),
         Clause("component_split", check_component_case, strategy=component_cases, budget={"quick": 800, "thorough": 6000}),
+        Clause("real_embeddings_long_dimension", check_real, strategy=long_real_cases, budget={"quick": 24, "thorough": 240},
+               shrink=False),
+        Clause("component_split_long_dimension", check_component_case, strategy=long_component_cases,
+               budget={"quick": 24, "thorough": 240}, shrink=False),
+        Clause("complex_adjoint_long_dimension", check_adjoint_long, strategy=long_adjoint_cases,
+               budget={"quick": 16, "thorough": 120}, shrink=False),
         Clause("special_values_round_trip", check_special, strategy=special_cases, budget={"quick": 1200, "thorough": 10000}),
     ],
     assumptions=[
